@@ -8,8 +8,10 @@ pub mod c05;
 pub mod c06;
 pub mod c07;
 pub mod c08;
+pub mod c09;
+pub mod c10;
 
-pub const PROPS: [&str; 8] = ["C01", "C02", "C03", "C04", "C05", "C06", "C07", "C08"];
+pub const PROPS: [&str; 10] = ["C01", "C02", "C03", "C04", "C05", "C06", "C07", "C08", "C09", "C10"];
 
 pub fn lanes(prop: &str) -> Vec<Lane> {
     match prop {
@@ -21,6 +23,8 @@ pub fn lanes(prop: &str) -> Vec<Lane> {
         "C06" => c06::lanes(),
         "C07" => c07::lanes(),
         "C08" => c08::lanes(),
+        "C09" => c09::lanes(),
+        "C10" => c10::lanes(),
         _ => vec![],
     }
 }
